@@ -29,11 +29,11 @@ class MultiSession(Capability, list[CapabilityCode]):
         return self
 
     def __str__(self) -> str:
-        info = ' (RFC)' if self.ID == Capability.CODE.MULTISESSION else ''
+        info = ' (RFC)' if self.code() == Capability.CODE.MULTISESSION else ''
         return 'Multisession{} {}'.format(info, ' '.join([str(capa) for capa in self]))
 
     def json(self) -> str:
-        variant = 'RFC' if self.ID == Capability.CODE.MULTISESSION else 'Cisco'
+        variant = 'RFC' if self.code() == Capability.CODE.MULTISESSION else 'Cisco'
         return '{{ "name": "multisession", "variant": "{}", "capabilities": [{} ] }}'.format(
             variant,
             ','.join(' "{}"'.format(str(capa)) for capa in self),
